@@ -1,11 +1,12 @@
 import Dmn.Model.Sexp
 import Dmn.Model.Plane
+import Dmn.Model.Canvas
 
 /-!
 Driver handler for C19.
 
 * `(c19 table <spec> <decor> <layout>)` → `((draw <line>…) (plane <display>) (texts <row>…)
-  (post <display>|(none)) (recognized <outcome>) (wf <bool>))`: the drawing of the table, the
+  (post <display>|(none)) (recognized <outcome>) (wf <bool>) (scan-inverts-draw <bool>))`: the drawing of the table, the
   plane it denotes (`planeOf`), the plane the recogniser leaves behind, and
   `recognizePlane (planeOf t)`.
 * `(c19 layout <spec> <decor> <slack>)` → `(<spec> <decor> <layout>)`: `autoLayout` — the
@@ -13,6 +14,12 @@ Driver handler for C19.
   (`<slack>` = `(slack (w…) (h…) boxExtra seed)`).
 * `(c19 plane <plane>)` → `(recognized <outcome> (scanner-shape <bool>))`: `recognizePlane` of an arbitrary plane
   (the plane the real scanner produced for a corrupted drawing).
+
+* `(c19 scan (s …))` → `((scanned <scan>) (recognized <outcome>))`: the scanner model on an
+  arbitrary text (`scanText`: canvas.rs `scan` + `Canvas::plane`) and `recognizeText`;
+  `<scan>` = `(ok <opt name> (<scell>…)…)` with `<scell>` = `(r id left top right bottom (s text))`
+  or a `<cell>` atom | `(error notFound (s chars))` | `(error notAllowed <code point> (s allowed))` |
+  `(error notClosed x1 y1 x2 y2)` | `(error regionNotFound left top right bottom)` | `(panic <site>)`.
 
 Encodings: `<opt>` = `(none)` | `(some (s …))`; `<spec>` = `(spec rows|cols|cross <HP>
 <opt name> ((in (s expr) <opt>)…) ((out <opt name> <opt values>)…) <opt label> ((s ann)…)
@@ -200,8 +207,47 @@ def shapeFailures (P : Plane) : List Sexp :=
    | .ok P' => if P'.crossingsOrdered then [] else [.atom "crossings-unordered-columns"]
    | _ => [])
 
+def cellAtom : Cell → String
+  | .vOut => "vo" | .vAnn => "va" | .hOut => "ho" | .hAnn => "ha"
+  | .mainX => "mx" | .horzX => "hx" | .vertX => "vx" | .region _ _ => "r"
+
+def scellS : SCell → Sexp
+  | .region n r t => .list [.atom "r", Sexp.ofNat n, Sexp.ofNat r.left, Sexp.ofNat r.top,
+      Sexp.ofNat r.right, Sexp.ofNat r.bottom, txt t]
+  | .mark c => .atom (cellAtom c)
+
+def scanSiteName : ScanSite → String
+  | .contentRow => "contentRow" | .contentCol => "contentCol" | .lenMinusOne => "lenMinusOne"
+  | .rectMinusOne => "rectMinusOne" | .sliceRange => "sliceRange" | .lineIndex => "lineIndex"
+  | .planeRow => "planeRow" | .planeFinalize => "planeFinalize"
+
+def scanErrS : ScanErr → Sexp
+  | .notFound cs => .list [.atom "error", .atom "notFound", txt cs]
+  | .notAllowed ch cs => .list [.atom "error", .atom "notAllowed", Sexp.ofNat ch.toNat, txt cs]
+  | .notClosed p q => .list [.atom "error", .atom "notClosed", Sexp.ofNat p.x, Sexp.ofNat p.y,
+      Sexp.ofNat q.x, Sexp.ofNat q.y]
+  | .regionNotFound r => .list [.atom "error", .atom "regionNotFound", Sexp.ofNat r.left,
+      Sexp.ofNat r.top, Sexp.ofNat r.right, Sexp.ofNat r.bottom]
+
+def scanS : Scan Scanned → Sexp
+  | .ok s => .list (.atom "ok" :: optS s.infoName :: s.rows.map fun r => .list (r.map scellS))
+  | .error e => scanErrS e
+  | .panic s => .list [.atom "panic", .atom (scanSiteName s)]
+
+def textOutcomeS : TextOutcome → Sexp
+  | .ok t => .list [.atom "ok", specS t]
+  | .error e => .list [.atom "error", .atom (errName e)]
+  | .scanError e => .list [.atom "scan-error", scanErrS e]
+  | .panic s => .list [.atom "panic", .atom (siteName s)]
+  | .scanPanic s => .list [.atom "scan-panic", .atom (scanSiteName s)]
+
 def handle (args : List Sexp) : String :=
   match args with
+  | [.atom "scan", text] =>
+    match Sexp.chars? text with
+    | some t => toString (Sexp.list [.list [.atom "scanned", scanS (scanText t)],
+        .list [.atom "recognized", textOutcomeS (recognizeText t)]])
+    | none => "(error bad-scan-request)"
   | [.atom "layout", spec, decor, slack] =>
     match spec? spec, decor? decor, slack? slack with
     | some t, some d, some k =>
@@ -221,7 +267,8 @@ def handle (args : List Sexp) : String :=
         textsS P.rows,
         post,
         .list [.atom "recognized", outcomeS (recognizePlane P)],
-        .list [.atom "wf", Sexp.ofBool t.wf]])
+        .list [.atom "wf", Sexp.ofBool t.wf],
+        .list [.atom "scan-inverts-draw", Sexp.ofBool (scanInvertsDraw d L t)]])
     | _, _, _ => "(error bad-table-request)"
   | [.atom "plane", plane] =>
     match plane? plane with
